@@ -53,8 +53,12 @@ RULE = ("seeded random scope pairs: per name the runtime side is absent/attribut
         "nested subpackage (pkgn/sub) and one level deeper (pkgn/sub/deep) plus a sibling pair inside the subpackage in both orders, top-level module "
         "or package __init__ pair, pkg + pkg-stubs with optional stub-only / runtime-only submodules and a nested subpackage on both sides, the producer "
         "API (modules visited without parent=, attached with set_member in both orders); every third pair as pkg/a_impl.py + re-exporting m.py + m.pyi "
-        "(aliases to loaded targets; every other one through a middle module = chain of two aliases) in the sibling and one nested layout, both orders; "
-        "every third with stubs that only IMPORT loaded objects (same layouts; package __init__ pair with in-package stubs or pkg-stubs); every third "
+        "(aliases to loaded targets; every other one through a middle module = chain of two aliases) in the sibling and one nested layout, both orders, and "
+        "with the re-exporting module as the package __init__ whose stubs sit in the package or in pkg-stubs (merged twice); runtime classes may derive "
+        "from a class bound earlier in the same scope, their stubs then re-declare inherited methods (overload-only more often than not); "
+        "every third with stubs that only IMPORT loaded objects (same layouts; package __init__ pair with in-package stubs or pkg-stubs) and as "
+        "pkg/base_mod.py + subclasses in m.py + overload-only stubs for every inherited method in m.pyi (base module must stay as visited, nothing "
+        "resolved during the merge; both orders and pkg-stubs); every third "
         "as six files m/user/via .py/.pyi (user re-exports m's names, via re-exports user's, each with its own stubs) in a seeded listing order and "
         "the same order with the two files of one pair swapped, against the sequential model; seeded pairs with CPython-evaluable annotations as "
         "private _pkg + facade (`from _pkg import *`) + stubs in four placements (package __init__.pyi, pkg-stubs, nested subpackage __init__ at two "
@@ -173,6 +177,28 @@ def gen_scope_pair(rng, depth, in_class):
     for name, e in rt:
         if e["k"] == "class" and e["scope"] is None:
             e["scope"] = gen_scope_pair(rng, depth + 1, True)[0]
+    # inheritance: a runtime class may derive from a class bound earlier in the same scope; its stubs may then re-declare
+    # methods the runtime class only INHERITS (overload-only more often than not): nothing of the base may change
+    st_by, earlier = dict((n, e) for n, e in st), []
+    for name, e in rt:
+        if e["k"] != "class":
+            continue
+        cands = [(bn, be) for bn, be in earlier if any(x["k"] == "func" for _, x in be["scope"] or [])]
+        if cands and rng.random() < 0.65:
+            bn, be = rng.choice(cands)
+            e["base"] = bn
+            se = st_by.get(name)
+            if se is not None and se["k"] == "class":
+                if rng.random() < 0.7:
+                    se["base"] = bn
+                own = {n for n, _ in e["scope"] or []} | {n for n, _ in se["scope"] or []}
+                for fn, fe in be["scope"] or []:
+                    if fe["k"] == "func" and fn not in own and rng.random() < 0.6:
+                        f = gen_func(rng, "S", True, base=fe["f"])
+                        if rng.random() < 0.6:
+                            f["novl"], f["impl"], f["late"] = max(f["novl"], 1), False, 0
+                        se["scope"] = (se["scope"] or []) + [[fn, {"k": "func", "f": f, "doc": False}]]
+        earlier.append((name, e))
     return rt, st
 
 
@@ -229,7 +255,7 @@ def render_scope(scope, tag, ind, counter):
         elif k == "func":
             out += render_func(name, e, tag, ind, counter[0])
         elif k == "class":
-            out.append(f"{ind}class {name}:")
+            out.append(f"{ind}class {name}({e['base']}):" if e.get("base") else f"{ind}class {name}:")
             if e["doc"]:
                 out.append(f'{ind}    """{tag} doc of class {name}."""')
             body = render_scope(e["scope"] or [], tag, ind + "    ", counter)
@@ -334,6 +360,13 @@ CORPUS = [
     # ... when the method already has an overload list (objects, not values: the pending group wins)
     ("A = 1\n", "from typing import overload\nclass S:\n    @overload\n    def g(self, x: int) -> int: ...\n    def g(self, x): ...\n"
                "    @overload\n    def g(self, x: str) -> str: ...\n    class T:\n        def h(self) -> int: ...\n        @overload\n        def h(self, x: int) -> int: ...\n"),
+    # (as a_impl.py re-exported by the package __init__: the class is reached through an alias in a placement merged twice)
+    ("class Shape:\n    def area(self): ...\n", "from typing import overload\nclass Shape:\n    def area(self) -> float: ...\n    class Style:\n        @overload\n"
+     "        def get(self, key: int) -> int: ...\n        @overload\n        def get(self, key: str) -> str: ...\n        width: int\n"),
+    # inherited method re-declared by the stubs of the subclass with overloads only: the base class must not change
+    ("class Base:\n    def run(self, x): ...\n    def stop(self): ...\nclass Sub(Base):\n    own = 1\n",
+     "from typing import overload\nclass Base:\n    def run(self, x: float) -> float: ...\nclass Sub(Base):\n    @overload\n    def run(self, x: int) -> int: ...\n"
+     "    @overload\n    def run(self, x: str) -> str: ...\n    def stop(self) -> None: ...\n    own: int\n"),
     # stub-only class inside a class present on both sides, overload-only groups (buffers drained by the second merge, nothing else)
     ("class C:\n    a = 1\n", "from typing import overload\nclass C:\n    a: int\n    class S:\n        @overload\n        def m(self) -> int: ...\n"
                               "        @overload\n        def m(self, x: int) -> str: ...\n        def k(self) -> int: ...\n"),
@@ -1090,6 +1123,70 @@ def run_stub_import_case(ctx, idx, py, pyi, use_model=True, layout=None):
 
 
 # ----------------------------------------------------------------------------------------------------------------------
+# classes whose BASE lives in another loaded module: pkg/base_mod.py = the generated runtime code, pkg/m.py derives one class
+# per class of base_mod (`class Sub_C(C): own = 1`), pkg/m.pyi re-declares every inherited method in the subclass with
+# @overload only.  The stubs of the subclass say nothing about the base: base_mod must be left exactly as visited, the merge
+# must not resolve anything (no MRO / bases lookup), the subclass gets `own: int` and no other member.
+# ----------------------------------------------------------------------------------------------------------------------
+def run_inherited_case(ctx, idx, py):
+    import griffe
+    d = ctx.scratch / f"inh{idx}"
+    try:
+        write(d / "in" / "base_mod.py", py)
+        t_base = abstract(visit_file(d / "in" / "base_mod.py", "base_mod"))
+        classes = [(n, [fn for fn, f in t[MEM] if f[0] == "obj" and f[KIND] == "function"]) for n, t in t_base[MEM] if t[0] == "obj" and t[KIND] == "class"]
+        classes = [(n, fns) for n, fns in classes if fns][:3]
+        if not classes:
+            return
+        m_py = "from pkg.base_mod import " + ", ".join(n for n, _ in classes) + "\n" + "".join(f"class Sub_{n}({n}):\n    own = 1\n" for n, _ in classes)
+        m_pyi = "from typing import overload\nfrom pkg.base_mod import " + ", ".join(n for n, _ in classes) + "\n" + "".join(
+            f"class Sub_{n}({n}):\n" + "".join(f"    @overload\n    def {fn}(self, x: int) -> int: ...\n    @overload\n    def {fn}(self, x: str) -> str: ...\n" for fn in fns)
+            + "    own: int\n" for n, fns in classes)
+        case = {"base_mod.py": py, "m.py": m_py, "m.pyi": m_pyi, "stream": "inherited-from-loaded-module"}
+        ctx.case(case, True)
+        ctx.observe("stream", "inherited-from-loaded-module")
+        want_base = norm_result(t_base)
+        for k in (0, 1, 2):
+            label = ("in-package, py first", "in-package, pyi first", "pkg-stubs")[k]
+            shutil.rmtree(d / "P", ignore_errors=True)
+            write(d / "P" / "site" / "pkg" / "__init__.py", "")
+            write(d / "P" / "site" / "pkg" / "base_mod.py", py)
+            write(d / "P" / "site" / "pkg" / "m.py", m_py)
+            if k == 2:
+                write(d / "P" / "stubs" / "pkg-stubs" / "__init__.pyi", "")
+                write(d / "P" / "stubs" / "pkg-stubs" / "m.pyi", m_pyi)
+                paths = [str(d / "P" / "stubs"), str(d / "P" / "site")]
+            else:
+                write(d / "P" / "site" / "pkg" / "m.pyi", m_pyi)
+                paths = [str(d / "P" / "site")]
+            first = ["__init__.py", "base_mod.py"] + (["m.py", "m.pyi"] if k != 1 else ["m.pyi", "m.py"])
+            try:
+                with walk_listed(first), merge_watch() as w:
+                    pkg = griffe.load("pkg", search_paths=paths, allow_inspection=False, find_stubs_package=True, try_relative_path=False)
+                m = pkg.members["m"]
+                got_base = norm_result(abstract(pkg.members["base_mod"]))
+                subs = {n: [[mn, x.kind.value, None if x.is_alias or not x.is_attribute or x.annotation is None else str(x.annotation), bool(x.runtime)]
+                            for mn, x in m.members[f"Sub_{n}"].members.items()] for n, _ in classes}
+            except Exception as e:  # noqa: BLE001
+                ctx.observe("outcome:inherited", type(e).__name__)
+                ctx.property_failure({**case, "placement": label}, {"raised": type(e).__name__, "expected": "no exception"})
+                continue
+            ctx.observe("outcome:inherited", "ok")
+            if got_base != want_base:
+                ctx.property_failure({**case, "placement": label}, {"base_module_modified_by_the_stubs_of_the_subclass":
+                                                                    [list(map(str, x)) for x in tree_diff(got_base, want_base)[:10]]})
+            if w.resolved:
+                ctx.property_failure({**case, "placement": label}, {"aliases_resolved_by_merging": w.resolved[:10]})
+            for n, got in subs.items():
+                if got != [["own", "attribute", "int", True]]:
+                    ctx.property_failure({**case, "placement": label}, {f"members_of_Sub_{n}": got, "expected": [["own", "attribute", "int", True]]})
+            if m.filepath.suffix == ".pyi":
+                ctx.property_failure({**case, "placement": label}, {"result_is": "the stubs module", "expected": "the runtime module"})
+    finally:
+        shutil.rmtree(d, ignore_errors=True)
+
+
+# ----------------------------------------------------------------------------------------------------------------------
 # public facade over a private sibling package: pkg/__init__.py = `from _pkg import *`, stubs for pkg.
 # Authorities: CPython importing pkg in a subprocess (runtime names, docstrings), CPython's ast on the .pyi (types).
 # Checked after load and again after resolve_aliases(implicit=True).
@@ -1456,7 +1553,42 @@ def run_resolvable_case(ctx, idx, py, pyi, use_model=True, layout=None, chain=No
             XCHECK.extend(model_q[1:])
         results = []
         base_case = case
-        for lay, k in [(lay, k) for lay in layouts_for(idx, layout) for k in (0, 1)]:
+
+        def after_load(pkg, m, got, got_m, is_pyi, case, order, lay, mo_raw):
+            ctx.observe("outcome:alias-to-loaded-target", "ok")
+            ctx.observe("layout:alias-to-loaded-target", lay)
+            br = backref_problems(pkg.modules_collection)
+            ctx.observe("resolved_aliases_after_load(alias-to-loaded-target)", min(3, sum(1 for x in m.members.values() if x.is_alias and x.resolved)))
+            if br:
+                ctx.property_failure({**case, "order": order}, {"alias_backrefs_broken": br})
+            results.append((got, got_m, is_pyi))
+            if mo_raw is not None:
+                after = dict((n, x) for n, x in pkg.members["a_impl"].members.items())
+                live = abstract(m)
+                live[MEM] = [[n, (["alias_to", t[1], t[2], (["alias_to", "pkg.a_impl." + n, True, abstract(after[n])] if chain else abstract(after[n]))]
+                                  if n in imported else t)] for n, t in live[MEM]
+                             if not (m is pkg and n in ("a_impl", "b_mid"))]      # (the package's own submodules: not part of the pair)
+                if chain:      # the middle module's aliases stay what they are
+                    mid = [[n, "alias" if x.is_alias else "obj", x.target_path if x.is_alias else x.kind.value] for n, x in pkg.members["b_mid"].members.items()]
+                    if mid != [[n, "alias", "pkg.a_impl." + n] for n in imported]:
+                        ctx.property_failure({**case, "order": order}, {"members_of_b_mid": mid})
+                got_c = ["ok", [is_pyi, norm_result(live)]]
+                mo = norm_model(mo_raw)
+                ctx.observe("model_outcome(alias-to-loaded-target)", mo[0] if mo[0] == "ok" else mo[1])
+                if mo != got_c:
+                    ctx.tie_failure("correspondence", f"model vs griffe [alias-to-loaded-target, {lay}, {order[1]}]",
+                                    {"differences": [list(map(str, x)) for x in (tree_diff(_tree(mo), _tree(got_c))[:8] if mo[0] == "ok" else [])],
+                                     "model": str(mo)[:600], "impl": str(got_c)[:600]}, case)
+            if is_pyi:
+                ctx.property_failure({**case, "order": order}, {"result_is": "the stubs module", "expected": "the runtime module"})
+            if got_m != [[n, ("alias" if kk == "alias" else "obj"), v, r] for n, kk, v, r in want_m]:
+                ctx.property_failure({**case, "order": order}, {"members_of_m": got_m, "expected": want_m})
+            diffs = tree_diff(erase(got), exp)
+            if diffs:
+                ctx.property_failure({**case, "order": order}, {"target_module_differs_from_property": [list(map(str, x)) for x in diffs[:10]],
+                                                                "a_impl_after": got, "expected": exp})
+
+        for lay, k in [(lay, k) for lay in layouts_for(idx, layout if layout not in ("init", "init-stubs") else "flat") for k in (0, 1)]:
             parts, orders = lay_pair(d / "P", lay, m_src, pyi, {"a_impl.py": py, **({"b_mid.py": mid_src} if chain else {})})
             order = [lay, "py first" if k == 0 else "pyi first"]
             case = {**base_case, "layout": lay}
@@ -1471,37 +1603,40 @@ def run_resolvable_case(ctx, idx, py, pyi, use_model=True, layout=None, chain=No
                 ctx.property_failure({**case, "order": order}, {"raised": type(e).__name__, "expected": "no exception"})
                 ctx.observe("outcome:alias-to-loaded-target", type(e).__name__)
                 continue
-            ctx.observe("outcome:alias-to-loaded-target", "ok")
-            ctx.observe("layout:alias-to-loaded-target", lay)
-            br = backref_problems(pkg.modules_collection)
-            ctx.observe("resolved_aliases_after_load(alias-to-loaded-target)", min(3, sum(1 for x in m.members.values() if x.is_alias and x.resolved)))
-            if br:
-                ctx.property_failure({**case, "order": order}, {"alias_backrefs_broken": br})
-            results.append((got, got_m, is_pyi))
-            if model_r is not None:
-                after = dict((n, x) for n, x in pkg.members["a_impl"].members.items())
-                live = abstract(m)
-                live[MEM] = [[n, (["alias_to", t[1], t[2], (["alias_to", "pkg.a_impl." + n, True, abstract(after[n])] if chain else abstract(after[n]))]
-                                  if n in imported else t)] for n, t in live[MEM]]
-                if chain:      # the middle module's aliases stay what they are
-                    mid = [[n, "alias" if x.is_alias else "obj", x.target_path if x.is_alias else x.kind.value] for n, x in pkg.members["b_mid"].members.items()]
-                    if mid != [[n, "alias", "pkg.a_impl." + n] for n in imported]:
-                        ctx.property_failure({**case, "order": order}, {"members_of_b_mid": mid})
-                got_c = ["ok", [is_pyi, norm_result(live)]]
-                mo = norm_model(model_r[k])
-                ctx.observe("model_outcome(alias-to-loaded-target)", mo[0] if mo[0] == "ok" else mo[1])
-                if mo != got_c:
-                    ctx.tie_failure("correspondence", f"model vs griffe [alias-to-loaded-target, {lay}, {order[1]}]",
-                                    {"differences": [list(map(str, x)) for x in (tree_diff(_tree(mo), _tree(got_c))[:8] if mo[0] == "ok" else [])],
-                                     "model": str(mo)[:600], "impl": str(got_c)[:600]}, case)
-            if is_pyi:
-                ctx.property_failure({**case, "order": order}, {"result_is": "the stubs module", "expected": "the runtime module"})
-            if got_m != [[n, ("alias" if kk == "alias" else "obj"), v, r] for n, kk, v, r in want_m]:
-                ctx.property_failure({**case, "order": order}, {"members_of_m": got_m, "expected": want_m})
-            diffs = tree_diff(erase(got), exp)
-            if diffs:
-                ctx.property_failure({**case, "order": order}, {"target_module_differs_from_property": [list(map(str, x)) for x in diffs[:10]],
-                                                                "a_impl_after": got, "expected": exp})
+            after_load(pkg, m, got, got_m, is_pyi, case, order, lay, model_r[k] if model_r is not None else None)
+        # the DOUBLE-merge placements: the re-exporting module is the package __init__ itself, its stubs are in the package
+        # (pkg/__init__.pyi) or in pkg-stubs: merged when the stubs module is registered and again by _load_package.  The
+        # members the first merge moved into the classes reached through the aliases must be left alone by the second.
+        for lay in (["init", "init-stubs"] if layout is None else [layout] if layout in ("init", "init-stubs") else []):
+            if layout is None and idx >= 24 and (idx // 2) % 2 != (0 if lay == "init" else 1):
+                continue
+            shutil.rmtree(d / "D", ignore_errors=True)
+            write(d / "D" / "site" / "pkg" / "__init__.py", m_src)
+            write(d / "D" / "site" / "pkg" / "a_impl.py", py)
+            if chain:
+                write(d / "D" / "site" / "pkg" / "b_mid.py", mid_src)
+            if lay == "init":
+                write(d / "D" / "site" / "pkg" / "__init__.pyi", pyi)
+                paths = [str(d / "D" / "site")]
+            else:
+                write(d / "D" / "stubs" / "pkg-stubs" / "__init__.pyi", pyi)
+                paths = [str(d / "D" / "stubs"), str(d / "D" / "site")]
+            order = [lay, "package __init__"]
+            case = {**base_case, "layout": lay}
+            try:
+                pkg = griffe.load("pkg", search_paths=paths, allow_inspection=False, find_stubs_package=True, try_relative_path=False)
+                got = norm_result(abstract(pkg.members["a_impl"]))
+                got_m = [[n, "alias" if x.is_alias else "obj", x.target_path if x.is_alias else x.kind.value, bool(x.runtime)]
+                         for n, x in pkg.members.items() if n not in ("a_impl", "b_mid")]
+                is_pyi = pkg.filepath.suffix == ".pyi"
+            except Exception as e:  # noqa: BLE001
+                ctx.property_failure({**case, "order": order}, {"raised": type(e).__name__, "expected": "no exception"})
+                ctx.observe("outcome:alias-to-loaded-target", type(e).__name__)
+                continue
+            mo2 = ctx.model([["load_package", t_m, t_pyi, []]])[0] if use_model else None
+            if mo2 is not None and mo2[0] == "ok":
+                mo2 = ["ok", [False, mo2[1]]]
+            after_load(pkg, pkg, got, got_m, is_pyi, case, order, lay, mo2)
         for r0, r1 in zip(results, results[1:]):
             if r0 != r1:
                 ctx.property_failure(base_case, {"order_or_layout_dependent": [list(map(str, x)) for x in tree_diff(r0[0], r1[0])[:10]],
@@ -1683,6 +1818,7 @@ def explore(ctx):
             run_resolvable_case(ctx, idx, py, pyi)
         if stream == "corpus" or idx % 3 == 1:
             run_stub_import_case(ctx, idx, py, pyi)
+            run_inherited_case(ctx, idx, py)
         if stream == "corpus" or idx % 3 == 2:
             run_interleaved_case(ctx, idx, py, pyi)
         idx += 1
@@ -1723,6 +1859,7 @@ def search(ctx):
             run_resolvable_case(ctx, idx, py, pyi, use_model=False)
         if idx % 3 == 1:
             run_stub_import_case(ctx, idx, py, pyi, use_model=False)
+            run_inherited_case(ctx, idx, py)
         if idx % 3 == 2:
             run_facade_case(ctx, idx, *gen_pair(ctx.rng, anns=SAFE_ANNS))
         idx += 1
@@ -1739,6 +1876,16 @@ def replay(ctx, data):
             run_facade_case(ctx, 0, case["_pkg/__init__.py"], case["pkg stubs"], placement=case["placement"].replace("facade + ", ""))
             for t in ctx.tie_failures:
                 print("MODEL DISAGREES:", t["name"], json.dumps(t["detail"], default=str)[:1500])
+            for f in ctx.prop_failures:
+                print("PROPERTY FAILURE:", json.dumps(f["detail"], default=str)[:1500], "classified:", f["classified_as"])
+        finally:
+            shutil.rmtree(ctx.scratch, ignore_errors=True)
+        return 0
+    if case.get("stream") == "inherited-from-loaded-module":
+        print("---- pkg/base_mod.py\n" + case["base_mod.py"] + "---- pkg/m.py\n" + case["m.py"] + "---- pkg/m.pyi\n" + case["m.pyi"])
+        ctx.scratch.mkdir(parents=True, exist_ok=True)
+        try:
+            run_inherited_case(ctx, 0, case["base_mod.py"])
             for f in ctx.prop_failures:
                 print("PROPERTY FAILURE:", json.dumps(f["detail"], default=str)[:1500], "classified:", f["classified_as"])
         finally:
